@@ -51,6 +51,11 @@ func runC12(c *Ctx) {
 		} else {
 			r := root.Fork(uint64(i))
 			sw = GenScopeWS(r, ScopeCfg{NFiles: r.Range(1, 3), Depth: r.Range(2, 3), Stats: r.Range(2, 5), JoinPct: -1, GluePct: -1, Zoo: r.Fork(0x7a6f6f).Chance(1, 4)})
+			if r.Fork(0x77696465).Chance(1, 40) {
+				// a wide workspace: more (short) files than the references worker pool has workers
+				sw = GenScopeWS(r, ScopeCfg{NFiles: r.Range(20, 44), Depth: 1, Stats: r.Range(1, 3), JoinPct: -1, GluePct: -1})
+				c.Count("wide_workspaces", 1)
+			}
 		}
 		if !sw.Loose && root.Fork(uint64(i)).Fork(0x72657175).Chance(1, 5) {
 			if sw2, n := sw.WithRequireOfModuleNamedLikeAGlobal(root.Fork(uint64(i)).Fork(0x72657176)); n != "" {
